@@ -89,6 +89,13 @@ def mutate(g, how):
     elif how == "face_centers":
         # (the Welzl variant shuffles with the global numpy RNG and is not reproducible)
         g.construct_face_centers(method="cartesian average")
+    elif how == "inplace":
+        # the caller edits, in place, the arrays behind two public properties
+        lat = g.node_lat.values
+        lat[...] = lat * 0.75
+        conn = g.face_node_connectivity.values
+        if conn.shape[0] > 1:
+            conn[[0, 1]] = conn[[1, 0]]
     elif how == "setter":
         lat = g.node_lat
         g.node_lat = xr.DataArray(np.asarray(lat.values) * 0.5, dims=lat.dims, attrs=dict(lat.attrs))
@@ -297,7 +304,11 @@ class Session:
         ev["bad"] = sorted(set(bad))
         ev["grew"] = grew
         ev["caches"] = caches
-        ev["inputs"] = sorted("%d:%s" % (hh, n) for hh, gg in self.grids.items() for n in G.inputs_changed(gg))
+        # "Building a grid does not modify [its inputs]": once the CALLER has edited the grid's arrays in place
+        # (which may be views of the arrays the grid was built from), later differences are the caller's own doing
+        if act == "Mutate" and args and args[0] == "inplace":
+            self.grids[h].__dict__["_verif_inplace"] = True
+        ev["inputs"] = sorted("%d:%s" % (hh, n) for hh, gg in self.grids.items() if not gg.__dict__.get("_verif_inplace") for n in G.inputs_changed(gg))
         ev["tmpl"] = G.templates_changed()
         if ev["tmpl"]:
             G.templates_restore()
